@@ -12,6 +12,8 @@
 (*   Pull opened between its commit and its publication                      *)
 (*   TimedUpdate(value) . Update(value') . Wait: an Update carrying a short   *)
 (*   duration (where the resource has one), superseded at once, then a delay *)
+(*   Update . Nudge . Nudge . Get at the end of a quarter of the histories:   *)
+(*   changes below any configured tolerance                                  *)
 (* with 1..6 updates and 0..2 streams open at any time.  Values and masks  *)
 (* are indices: the harness maps a value index to one of the 3-4 far-apart *)
 (* well-formed values of the server's resource type (1-4, 7, 8; 5, 6: a    *)
@@ -62,7 +64,15 @@ RECURSIVE Build(_, _, _, _, _, _)
 \* z: salt, left: ops still to emit, open: streams open, upd: updates so far, last: previous value index
 Build(z, left, open, upd, last, acc) ==
   IF left = 0
-    THEN IF upd = 0 THEN Append(acc, [Blank EXCEPT !.op = "Update", !.val = R(1..4), !.name = R(0..1)]) ELSE acc
+    THEN LET a1 == IF upd = 0 THEN Append(acc, [Blank EXCEPT !.op = "Update", !.val = R(1..4), !.name = R(0..1)]) ELSE acc IN
+         \* a quarter of the histories END with: an Update, then twice the current value with one number moved by
+         \* 0.004 (below any configured tolerance), then a Get.  Only at the end: afterwards the register is within
+         \* tolerance of other values, and "large or identical changes" would no longer hold for later steps.
+         IF Flip(z, 25)
+           THEN a1 \o << [Blank EXCEPT !.op = "Update", !.val = R({1, 2, 3, 4, 7, 8}), !.name = R(0..1)],
+                          [Blank EXCEPT !.op = "Nudge", !.name = R(0..1)], [Blank EXCEPT !.op = "Nudge", !.name = R(0..1)],
+                          [Blank EXCEPT !.name = R(0..1), !.mask = ReadMask(z)] >>
+           ELSE a1
     ELSE
       LET d == R(1..100)
           kind == IF d <= 38 THEN "Update" ELSE IF d <= 53 THEN "Get" ELSE IF d <= 71 THEN "OpenPull"
